@@ -21,6 +21,7 @@ import (
 	"os"
 	"os/exec"
 	"path/filepath"
+	"regexp"
 	"sort"
 	"strings"
 )
@@ -29,6 +30,14 @@ type multiFlag []string
 
 func (m *multiFlag) String() string     { return strings.Join(*m, ",") }
 func (m *multiFlag) Set(s string) error { *m = append(*m, s); return nil }
+
+// options added by stage 11 (kept out of the signature of translate)
+var stage11 struct {
+	arrayFields multiFlag
+	transparent multiFlag // S.f: the struct S has the one (embedded) field f and IS that field's struct
+	splitFuncs  multiFlag        // FILE=F1,F2,..
+	splitFn     map[string]string // function -> file
+}
 
 func main() {
 	repo := flag.String("repo", "/repo", "repository root")
@@ -53,6 +62,9 @@ func main() {
 	flag.Var(&devirts, "devirt", "I=S: values of the interface type I are pointers to the struct S; their method calls are calls of the methods of S")
 	flag.Var(&objects, "object", "S: pointers to the struct type S are object ids (Z, 0 = nil); the fields live in the heap, one array per object")
 	flag.Var(&shapes, "shape", "Func=SKELETON: the control skeleton the proofs of this tie were written for; a function with another skeleton is left out")
+	flag.Var(&stage11.arrayFields, "arrayfield", "S.f: the field f of the struct S (reached through a pointer) is an array [N]T of integers: the record holds a slice descriptor of the array (len = cap = N), x.f[i] and x.f[lo:hi] are loads / stores / reslices of it")
+	flag.Var(&stage11.splitFuncs, "split-funcs", "FILE=F1,F2,...: these functions go to FILE (next to --out), which the main file imports (like --split, by function; with --split-same the part must agree with the snapshot)")
+	flag.Var(&stage11.transparent, "transparent", "S.f: the struct S has exactly one field f (an embedded pointer to a struct): a value of S is the value of f, x.f is x")
 	timeInt := flag.Bool("timeint", false, "time.Time values are Z (nanoseconds on one clock): t.Before(u) is t <? u, t.After(u) is u <? t, t.Equal(u) is t =? u")
 	require := flag.String("require", "", "comma separated functions that must be translated (default: all roots); the others may be left out")
 	printShapes := flag.Bool("print-shapes", false, "print Func=SKELETON for every function that would be translated and exit")
@@ -65,6 +77,18 @@ func main() {
 	var req []string
 	if *require != "" {
 		req = strings.Split(*require, ",")
+	}
+	stage11.splitFn = map[string]string{}
+	for _, sf := range stage11.splitFuncs {
+		i := strings.Index(sf, "=")
+		if i < 0 {
+			fmt.Fprintln(os.Stderr, "go2coq: bad --split-funcs", sf)
+			os.Exit(2)
+		}
+		for _, fn := range strings.Split(sf[i+1:], ",") {
+			stage11.splitFn[strings.TrimSpace(fn)] = sf[:i]
+		}
+		splits = append(splits, "__funcs__="+sf[:i])
 	}
 	text, err := translate(*repo, *pkg, strings.Split(*funcs, ","), fuels, params, ifaces, shapes, req, objects, vias, devirts, packeds, splits, effs, stdpkgs, mparams, errcodes, *chans, *timeInt, *strid, *printShapes)
 	if err != nil {
@@ -133,11 +157,15 @@ func main() {
 
 // sameBlocks: two generated files consist of the same records and functions
 // (blocks separated by blank lines, after the header), in any order
+var posLine = regexp.MustCompile(`\(\* ([^\s:]+\.go):\d+\n`)
+
 func sameBlocks(a, b string) bool {
 	norm := func(t string) string {
 		if i := strings.Index(t, "\nModule Gen.\n"); i >= 0 {
 			t = t[i:]
 		}
+		// the line numbers of the position comments do not matter (an edit elsewhere in the same file shifts them)
+		t = posLine.ReplaceAllString(t, "(* $1\n")
 		bl := strings.Split(t, "\n\n")
 		for i := range bl {
 			bl[i] = strings.TrimSpace(bl[i])
